@@ -49,6 +49,16 @@ def _uchar(x):
     return x & 0xFF
 
 
+_PYTYPES = {"list": list, "tuple": tuple, "dict": dict, "bytes": bytes, "str": str, "set": set}
+
+
+def _cdef_cast(v, ctype):
+    """`cdef list x = <expr>`: Cython accepts None or an exact instance, anything else is a TypeError."""
+    if v is None or type(v) is _PYTYPES[ctype]:
+        return v
+    raise TypeError("Expected %s, got %s" % (ctype, type(v).__name__))
+
+
 def _ob_size(o):
     if isinstance(o, (bytes, str, tuple, list)):
         return len(o)  # ob_size / the length field that sits at the same offset in a str object
@@ -272,6 +282,8 @@ def translate(src_lines):
                 elif "ndarray[" in ctype:
                     typed[n] = "ndarray2"
                 if e is not None:
+                    if ctype in _PYTYPES and e.count("(") == e.count(")") and e.count("[") == e.count("]"):
+                        e = "_cdef_cast(%s, %r)" % (e, ctype)
                     keep.append("%s = %s" % (n, e))
             if not keep:
                 continue
@@ -310,7 +322,7 @@ def load(repo):
 
     from orso.exceptions import DataError
 
-    ns = {"_arg": _arg, "_uget": _uget, "_uset": _uset, "_uchar": _uchar, "_CharPtr": _CharPtr, "_ob_size": _ob_size,
+    ns = {"_arg": _arg, "_uget": _uget, "_uset": _uset, "_uchar": _uchar, "_CharPtr": _CharPtr, "_ob_size": _ob_size, "_cdef_cast": _cdef_cast,
           "_dict_getitem": _dict_getitem, "_NULL": _NULL, "_NoneView": _NoneView, "np": numpy, "numpy": numpy,
           "unpackb": unpackb, "DataError": DataError, "datetime": datetime.datetime,
           "HEADER_PREFIX": b"\x10\x00", "MAXIMUM_RECORD_SIZE": 8 * 1024 * 1024}
